@@ -228,7 +228,8 @@ def plan_C13(ctx, rt):
     tdir = os.path.join(rt.OUT, "traces")
     os.makedirs(tdir, exist_ok=True)
     parts = [("matrix", {"seed": seed}, 600),
-             ("race", {"seed": seed, "n": 14 if tier == "quick" else 60, "maxthreads": 5 if tier == "quick" else 8}, 1500),
+             ("race", {"seed": seed, "n": 15 if tier == "quick" else 40, "maxthreads": 6}, 1500),
+             ("race", {"seed": seed + 50, "n": 2 if tier == "quick" else 10, "minthreads": 7, "maxthreads": 8}, 1500),
              ("poison", {"seed": seed}, 300),
              ("scan", {"seed": seed, "n": 1 if tier == "quick" else 4}, 600)]
     if tier == "thorough":
@@ -377,10 +378,11 @@ def plan_C19(ctx, rt):
     runs = [("MemLocks.tla", "MC_memlocks_quick.cfg", 600, True), ("MemLocks.tla", "MC_memlocks_intended.cfg", 600, True),
             ("MCOpen.tla", "MC_open_quick.cfg", 600, True)]
     if tier == "thorough":
-        runs += [("MemLocks.tla", "MC_memlocks_thorough.cfg", 1700, True), ("MemLocks.tla", "MC_memlocks_nid.cfg", 900, True)]
+        runs += [("MemLocks.tla", "MC_memlocks_thorough.cfg", 900, True), ("MemLocks.tla", "MC_memlocks_thorough2.cfg", 1700, True),
+                 ("MemLocks.tla", "MC_memlocks_nid.cfg", 900, True)]
     if "MemSnapshotTwoSections" not in dev:
         # the finding is listed as fixed / removed: the as-built model no longer has the deviation
-        runs = [r for r in runs if r[1] != "MC_memlocks_quick.cfg" and r[1] != "MC_memlocks_thorough.cfg"]
+        runs = [r for r in runs if r[1] not in ("MC_memlocks_quick.cfg", "MC_memlocks_thorough.cfg", "MC_memlocks_thorough2.cfg")]
     mc = mc_part(rt, pid, runs, viol, mc_runs)
     if mc is None:
         return 2
@@ -388,15 +390,21 @@ def plan_C19(ctx, rt):
     known_seen |= tags
     tdir = os.path.join(rt.OUT, "traces")
     os.makedirs(tdir, exist_ok=True)
+    L = ("LinTrace.tla", LIN_CFG)
     if tier == "quick":
-        parts = [("lin", {"seed": seed, "n": 24, "backend": "both", "maxthreads": 16, "ops": 60, "profiles": "mix,relays,nid,snap", "stress_ms": 1500}, "LinTrace.tla", LIN_CFG, 900),
-                 ("lin", {"seed": seed + 7000, "n": 24, "backend": "both", "maxthreads": 4, "ops": 48, "profiles": "relays,nid", "stress_ms": 0}, "LinTrace.tla", LIN_CFG, 900),
+        parts = [("lin", {"seed": seed, "n": 18, "backend": "both", "maxthreads": 16, "ops": 60, "profiles": "mix,snap,relays", "stress_ms": 1500}) + L + (900,),
+                 # directed: barrier-aligned save_group fights for a fresh nostr id (memory), disjoint replace/list of relays (SQLite)
+                 ("lin", {"seed": seed + 7000, "n": 12, "backend": "mem", "maxthreads": 3, "ops": 48, "profiles": "nid", "stress_ms": 0}) + L + (900,),
+                 ("lin", {"seed": seed + 8000, "n": 10, "backend": "sql", "maxthreads": 4, "ops": 48, "profiles": "relays", "stress_ms": 0}) + L + (900,),
+                 ("lin", {"seed": seed + 9000, "n": 8, "backend": "both", "maxthreads": 4, "ops": 48, "profiles": "nid,relays,snap", "stress_ms": 0}) + L + (900,),
                  ("race", {"seed": seed, "n": 10, "maxthreads": 5}, "OpenTrace.tla", OPEN_CFG, 900)]
     else:
         parts = []
-        for k in range(6):
-            parts.append(("lin", {"seed": seed * 1000 + k, "n": 60, "backend": "both", "maxthreads": 16, "ops": 60, "profiles": "mix,relays,nid,snap", "stress_ms": 5000}, "LinTrace.tla", LIN_CFG, 2400))
-            parts.append(("lin", {"seed": seed * 1000 + 500 + k, "n": 60, "backend": "both", "maxthreads": 4, "ops": 48, "profiles": "relays,nid", "stress_ms": 0}, "LinTrace.tla", LIN_CFG, 2400))
+        for k in range(5):
+            parts.append(("lin", {"seed": seed * 1000 + k, "n": 60, "backend": "both", "maxthreads": 16, "ops": 60, "profiles": "mix,snap,relays,nid", "stress_ms": 5000}) + L + (2400,))
+            parts.append(("lin", {"seed": seed * 1000 + 100 + k, "n": 40, "backend": "mem", "maxthreads": 3, "ops": 48, "profiles": "nid", "stress_ms": 0}) + L + (2400,))
+            parts.append(("lin", {"seed": seed * 1000 + 200 + k, "n": 40, "backend": "sql", "maxthreads": 4, "ops": 48, "profiles": "relays", "stress_ms": 0}) + L + (2400,))
+            parts.append(("lin", {"seed": seed * 1000 + 300 + k, "n": 40, "backend": "both", "maxthreads": 6, "ops": 48, "profiles": "nid,relays,snap,mix", "stress_ms": 0}) + L + (2400,))
         parts.append(("race", {"seed": seed, "n": 50, "maxthreads": 8}, "OpenTrace.tla", OPEN_CFG, 2400))
     nh = events = 0
     distinct, nontriv = set(), set()
